@@ -27,7 +27,7 @@ theorem bleedbox_cap_linear_regression :
 section cache
 open Wp.ImageCache
 
-def jpegFetcher : Fetcher := fun _ => .ok (some "image/jpeg") none ⟨1, false, some ⟨.jpeg, false⟩⟩
+def jpegFetcher : Fetcher := fun _ => .ok (some "image/jpeg") none ⟨1, false, some ⟨.jpeg, false, true⟩⟩
 def lowQuality : Opts := ⟨false, some 5, none⟩
 def defaults : Opts := ⟨false, none, none⟩
 
